@@ -219,7 +219,7 @@ Qed.
 (* ------------------------------------------------------------ point level *)
 Definition P (f : list Z) (es : list ev) : list point := map (fun e => f ++ [ev_c e]) es.
 
-Definition E (p : fpair) : list ev * list ev := and_ev (occ (f_a p)) (occ (f_b p)) 0 0 0.
+Definition E (p : fpair) : list ev * list ev := and_ev (occ (f_d p) (f_a p)) (occ (f_d p) (f_b p)) 0 0 0.
 
 Definition T0 (fs : list fpair) : list point := flat_map (fun p => P (f_id p) (fst (E p))) fs.
 Definition T1 (fs : list fpair) : list point := flat_map (fun p => P (f_id p) (snd (E p))) fs.
@@ -545,7 +545,7 @@ Qed.
 
 (* ------------------------------------------------------------ whole traces *)
 Definition okp (d : nat) (p : fpair) : Prop :=
-  length (f_id p) = d /\ ssorted (occ (f_a p)) = true /\ ssorted (occ (f_b p)) = true.
+  length (f_id p) = d /\ ssorted (occ (f_d p) (f_a p)) = true /\ ssorted (occ (f_d p) (f_b p)) = true.
 
 Definition okL (d : nat) (fs : list fpair) : Prop :=
   Forall (okp d) fs /\ fids_sorted (map f_id fs) = true.
@@ -559,7 +559,7 @@ Proof.
 Qed.
 
 Lemma total_cons q p fs :
-  total q (p :: fs) = q (occ (f_a p)) (occ (f_b p)) + total q fs.
+  total q (p :: fs) = q (occ (f_d p) (f_a p)) (occ (f_d p) (f_b p)) + total q fs.
 Proof. reflexivity. Qed.
 
 Lemma tf_all d fs : okL d fs ->
